@@ -676,11 +676,18 @@ func build(tier string) []*vkit.Scenario {
 				}
 				// two connections on two pollers
 				if b == 2 && (mr == 1 || thorough) {
-					c := cfg{mode: e.mode, async: e.async, exec: e.exec, npoller: 2, b: b, maxReads: mr, trans: "tcp", bursts: []int{b + 1, 1}, conns: 2, p: 2, d: 0}
+					// ET + the default task pool on two pollers does not finish P<=2 within the quick
+					// budget (about 1.4 million states after 40 s): quick explores it at P<=1, thorough
+					// at P<=2
+					p2 := 2
+					if !thorough && e.mode == ekit.ET && e.async && e.exec == "default" {
+						p2 = 1
+					}
+					c := cfg{mode: e.mode, async: e.async, exec: e.exec, npoller: 2, b: b, maxReads: mr, trans: "tcp", bursts: []int{b + 1, 1}, conns: 2, p: p2, d: 0}
 					add(c, streamBody(c))
 					// a first burst that makes each poller use its buffer once, then one that is larger
 					// than the buffer on both connections at the same time
-					c = cfg{mode: e.mode, async: e.async, exec: e.exec, npoller: 2, b: b, maxReads: mr, trans: "tcp", bursts: []int{1, 2 * b}, conns: 2, p: 2, d: 0}
+					c = cfg{mode: e.mode, async: e.async, exec: e.exec, npoller: 2, b: b, maxReads: mr, trans: "tcp", bursts: []int{1, 2 * b}, conns: 2, p: p2, d: 0}
 					add(c, streamBody(c))
 				}
 				// a descriptor number reused while a read task of its previous owner is in flight
